@@ -131,13 +131,21 @@ def same_names_other_definitions(rng, desc):
     return other
 
 
+def split_render(desc, modname):
+    """The schema as two files: every enum and struct in a module, the bindings, services and devices (and the import) in the main file."""
+    mod_text = gen_schema.render({"enums": desc["enums"], "structs": desc["structs"], "impls": []})
+    rest = gen_schema.render({"enums": [], "structs": [], "impls": desc["impls"], "services": desc.get("services", []), "devices": desc.get("devices", [])})
+    head, body = rest.split("\n", 1)
+    return head + f"\nmod {modname};\n" + body, mod_text
+
+
 def run(chk):
     quick = chk.tier == "quick"
     nsch, nseeds = (6, 6) if quick else (40, 32)
     broken = chk.proof_obligations(["Corr/Gen.vo"])
     chk.coverage["rule"] = (
         "schemas with several protocols and services; every generator (dbc, can_c, cpp, nop) is run in fresh interpreters under different "
-        "PYTHONHASHSEEDs, after unrelated parse/generate calls in the same process, after parsing and generating from another schema that declares the same type names with other definitions, twice on the same parsed schema object, and after every other generator has run on that same object; the {path: contents} "
+        "PYTHONHASHSEEDs, after unrelated parse/generate calls in the same process, after parsing and generating from another schema that declares the same type names with other definitions, twice on the same parsed schema object, after every other generator has run on that same object, and (schemas split into a main file and a module) after the same process parsed the same paths while the module file held other definitions; the {path: contents} "
         "maps must be identical apart from the documented '// Generated using fcp ... on ...' stamp line; the C++ generator's file set is compared "
         "in Coq with the model; non-trivial = >= 2 protocols or a service; distinct = (schema, generator, configuration)")
     work = common.scratch_dir("verif_c17_")
@@ -148,9 +156,26 @@ def run(chk):
             desc = c17_desc(chk.rng)
             text = gen_schema.render(desc)
             fcp = serde_run.parse(text).unwrap()
+            # every other schema is written as a main file importing a module (so that generation from module graphs is covered,
+            # and the module can be rewritten between two parses of one process)
+            split = k % 2 == 1
             path = f"{work}/s{k}.fcp"
-            with open(path, "w") as f:
-                f.write(text)
+            rewrite = None
+            if split:
+                main_text, mod_text = split_render(desc, f"s{k}_types")
+                with open(f"{work}/s{k}_types.fcp", "w") as f:
+                    f.write(mod_text)
+                other_mod = split_render(same_names_other_definitions(chk.rng, desc), f"s{k}_types")[1]
+                rewrite = f"{work}/s{k}_types.before"
+                with open(rewrite, "w") as f:
+                    f.write(other_mod)
+                prevs[rewrite] = other_mod
+                text = main_text + "\n// --- module s%d_types.fcp ---\n" % k + mod_text
+                with open(path, "w") as f:
+                    f.write(main_text)
+            else:
+                with open(path, "w") as f:
+                    f.write(text)
             # a schema with the same type names but other definitions (generated names are E0.., S0..), used as the process's earlier work
             prev = f"{work}/p{k}.fcp"
             prev_text = gen_schema.render(same_names_other_definitions(chk.rng, desc) if chk.rng.random() < 0.8 else c17_desc(chk.rng))
@@ -159,7 +184,7 @@ def run(chk):
                 f.write(prev_text)
             protos = [i.protocol for i in fcp.impls]
             for name in ("dbc", "can_c", "cpp", "nop"):
-                confs = [("none", s) for s in chk.rng.sample(range(1, 10000), nseeds)] + [("busy", 7), ("twice", 11), ("busy", 4242), ("after:" + prev, 5), ("after:" + prev, 977), ("others-first", 3), ("others-first", 4711)]
+                confs = [("none", s) for s in chk.rng.sample(range(1, 10000), nseeds)] + [("busy", 7), ("twice", 11), ("busy", 4242), ("after:" + prev, 5), ("after:" + prev, 977), ("others-first", 3), ("others-first", 4711)] + ([("module-rewritten:" + rewrite, 9), ("module-rewritten:" + rewrite, 1234)] if rewrite else [])
                 for ci, (hist, seed) in enumerate(confs):
                     jobs.append((path, name, f"{work}/o{k}_{name}_{ci}", hist, seed))
                     index.append((k, text, name, hist, seed, protos, [s.name for s in fcp.services]))
@@ -192,6 +217,9 @@ def run(chk):
                     if h.startswith("after:"):
                         fails[-1][side]["history"] = "after"
                         fails[-1]["schema_generated_from_earlier_in_the_process"] = prevs[h[6:]]
+                    if h.startswith("module-rewritten:"):
+                        fails[-1][side]["history"] = "module-rewritten"
+                        fails[-1]["text_of_the_module_file_during_the_first_parse_of_the_process"] = prevs[h[len("module-rewritten:"):]]
     finally:
         shutil.rmtree(work, ignore_errors=True)
     chk.log(f"{chk.coverage['evaluations']} generator runs; implementation-side failures: {len(fails)}")
